@@ -2024,7 +2024,9 @@ func (cs *ConditionsSet) StreamIDs(nextStreamID uint64) (bitmask.LongBitmask, bo
 
 // AtReferenceTime returns the conditions expressed against another reference time, cs itself is not modified
 func (cs ConditionsSet) AtReferenceTime(oldReferenceTime, newReferenceTime time.Time) ConditionsSet {
-	delta := newReferenceTime.Sub(oldReferenceTime)
+	// the conditions were computed from wall clock times, the difference has to be taken the same way
+	// (Sub prefers the monotonic clock readings of its operands, which drift against the wall clock)
+	delta := newReferenceTime.Round(0).Sub(oldReferenceTime.Round(0))
 	if delta == 0 {
 		return cs
 	}
